@@ -124,6 +124,31 @@ ReadOnlyEv ==
     /\ UNCHANGED <<typ, msg, rmsg>>
     /\ l' = l + 1
 
+\* C10: proto.Equal / Clone / CheckInitialized / JSON / text on the current value, then
+\* proto.Merge(current, other): the state becomes Codec!MergeV(msg, other)
+Lib ==
+    /\ IsEvent("lib")
+    /\ LET e == Trace[l]
+           other == FromJ(S, typ, e.v)
+           st == FromJ(S, typ, e.st)
+           rst == FromJ(S, typ, e.ref_st)
+           impl == /\ e.ok /\ e.equal_self /\ e.clone_ok /\ e.init_ok /\ e.json_ok /\ e.text_ok /\ e.fast_eq
+                   /\ (msg = other => e.equal) /\ (e.equal = e.ref_equal)
+                   /\ st = MergeV(S, typ, msg, other)
+           ref == rst = MergeV(S, typ, rmsg, other) /\ (rmsg = other => e.ref_equal)
+       IN /\ msg' = st
+          /\ rmsg' = rst
+          /\ Verdict(e, impl, ref,
+                     IF ~e.ok THEN "lib:panic"
+                     ELSE IF ~e.equal_self \/ e.equal # e.ref_equal \/ (msg = other /\ ~e.equal) THEN "lib:equal"
+                     ELSE IF ~e.clone_ok THEN "lib:clone"
+                     ELSE IF ~e.json_ok THEN "lib:json"
+                     ELSE IF ~e.text_ok THEN "lib:text"
+                     ELSE IF ~e.init_ok THEN "lib:checkinitialized"
+                     ELSE IF st # MergeV(S, typ, msg, other) THEN "lib:merge" ELSE "lib:fastproj")
+    /\ UNCHANGED typ
+    /\ l' = l + 1
+
 Size ==
     /\ IsEvent("size")
     /\ LET e == Trace[l]
@@ -176,7 +201,7 @@ Unmarshal ==
     /\ l' = l + 1
 
 Init == l = 1 /\ typ = "" /\ msg = EmptyMsg /\ rmsg = EmptyMsg /\ TLCSet(1, 0)
-Next == Load \/ Reset \/ Marshal \/ Roundtrip \/ DetN \/ AliasIn \/ AliasOut \/ ReadOnlyEv \/ Size \/ AppendEv \/ Unmarshal
+Next == Load \/ Reset \/ Marshal \/ Roundtrip \/ DetN \/ AliasIn \/ AliasOut \/ ReadOnlyEv \/ Lib \/ Size \/ AppendEv \/ Unmarshal
 Spec == Init /\ [][Next]_vars
 
 AllConsumed ==
